@@ -225,11 +225,12 @@ where
     on_carrier!(h, c, 'a, |b| t!(b))
 }
 
-fn realloc_on<B: BumpAllocatorCore + ?Sized>(b: &B, kind: u16, blk: &Blk, new: Layout) -> Result<(*mut u8, usize), ()> {
+fn realloc_on<B: BumpAllocatorCore + ?Sized>(b: &B, kind: u16, zeroed: bool, blk: &Blk, new: Layout) -> Result<(*mut u8, usize), ()> {
     let old = Layout::from_size_align(blk.size, blk.align).unwrap();
     let p = unsafe { NonNull::new_unchecked(blk.ptr) };
     unsafe {
         match kind {
+            K_GROW if zeroed => b.grow_zeroed(p, old, new).map(|p| (p.as_ptr() as *mut u8, p.len())).map_err(drop),
             K_GROW => b.grow(p, old, new).map(|p| (p.as_ptr() as *mut u8, p.len())).map_err(drop),
             K_SHRINK => b.shrink(p, old, new).map(|p| (p.as_ptr() as *mut u8, p.len())).map_err(drop),
             _ => {
@@ -240,12 +241,12 @@ fn realloc_on<B: BumpAllocatorCore + ?Sized>(b: &B, kind: u16, blk: &Blk, new: L
     }
 }
 
-fn realloc_side<'a, A, S>(h: &mut Handle<'_, 'a, A, S>, c: usize, kind: u16, blk: &Blk, new: Layout) -> Result<(*mut u8, usize), ()>
+fn realloc_side<'a, A, S>(h: &mut Handle<'_, 'a, A, S>, c: usize, kind: u16, zeroed: bool, blk: &Blk, new: Layout) -> Result<(*mut u8, usize), ()>
 where
     A: BaseAllocator<S::GuaranteedAllocated>,
     S: BumpAllocatorSettings,
 {
-    on_carrier!(h, c, 'a, |b| realloc_on(b, kind, blk, new))
+    on_carrier!(h, c, 'a, |b| realloc_on(b, kind, zeroed, blk, new))
 }
 
 fn reserve_on<B: BumpAllocatorTyped + ?Sized>(b: &B, try_: bool, n: usize) -> Result<(), ()> {
@@ -492,9 +493,12 @@ where
                 };
                 let new_align = if op.a[4] % 4 == 0 { 1usize << (op.a[4] / 4 % 6) } else { bl.align };
                 let new = Layout::from_size_align(new_size, new_align).unwrap();
-                let a = realloc_side(&mut l, cl, op.kind, &bl, new);
-                let b = realloc_side(&mut r, cr, op.kind, &br, new);
-                what = format!("{} of block #{k} ({} -> {new_size} bytes, align {} -> {new_align}) via {} vs {}", OP_NAMES[op.kind as usize], bl.size, bl.align, carrier_name(root, cl), carrier_name(root, cr));
+                // grow and grow_zeroed are both entry points of every carrier (the `&mut` carriers have their own
+                // forwarding impl of each)
+                let zeroed = op.kind == K_GROW && op.a[5] & 1 == 1;
+                let a = realloc_side(&mut l, cl, op.kind, zeroed, &bl, new);
+                let b = realloc_side(&mut r, cr, op.kind, zeroed, &br, new);
+                what = format!("{}{} of block #{k} ({} -> {new_size} bytes, align {} -> {new_align}) via {} vs {}", OP_NAMES[op.kind as usize], if zeroed { "_zeroed" } else { "" }, bl.size, bl.align, carrier_name(root, cl), carrier_name(root, cr));
                 match (a, b) {
                     (Ok(x), Ok(y)) => {
                         it.blocks.remove(k);
@@ -506,6 +510,12 @@ where
                             let n = new_size.min(x.1).min(y.1).min(bl.size);
                             if unsafe { std::slice::from_raw_parts(x.0, n) != std::slice::from_raw_parts(y.0, n) } {
                                 it.viol("C17/contents-differ", format!("{what}: surviving contents differ"));
+                            }
+                            if zeroed {
+                                let tail = |p: *mut u8, len: usize| (bl.size.min(len)..new_size.min(len)).all(|i| unsafe { *p.add(i) } == 0);
+                                if !tail(x.0, x.1) || !tail(y.0, y.1) {
+                                    it.viol("C17/contents-differ", format!("{what}: the new tail of a zeroed grow is not zero on one side"));
+                                }
                             }
                             // bytes beyond the old size are uninitialised: give them a defined value on both sides
                             for i in bl.size.min(x.1)..x.1.min(y.1) {
